@@ -92,7 +92,20 @@ func (fr *Frame) hashNative(f *ssa.Function, args []Val, in ssa.Instruction) (Va
 	initStream()
 	switch name {
 	case "(*sync.Pool).Get":
-		// the only pools of the module are the hasher pools (types/hash.go, consensus/state.go)
+		// the hasher pools (types/hash.go, consensus/state.go): the result is asserted to
+		// *types.Hasher by its user; any other pool is an unknown external call (a package-level
+		// cache: reported as such by the purity obligations)
+		isHasherPool := false
+		if cv, okv := in.(ssa.Value); okv && cv.Referrers() != nil {
+			for _, r := range *cv.Referrers() {
+				if ta, okt := r.(*ssa.TypeAssert); okt && isNamedPtr(ta.AssertedType, typesPkg, "Hasher") {
+					isHasherPool = true
+				}
+			}
+		}
+		if !isHasherPool {
+			return nil, false
+		}
 		if hp, ok := fr.newHasher(); ok {
 			ex.note("sync.Pool.Get returns a Hasher indistinguishable from a new one (every user calls Reset first)")
 			return IfaceV{Dyn: hp, DynTyp: types.NewPointer(hp.Elem), Typ: f.Signature.Results().At(0).Type()}, true
